@@ -243,6 +243,18 @@ Section Proofs.
   Lemma step_get st a : step st (Get a) = (st, get_cache (cache_of st) a).
   Proof. reflexivity. Qed.
 
+  (* Get never changes the store: neither memory (cache, content, credsStore) nor file *)
+  Lemma get_pure st a : fst (step st (Get a)) = st.
+  Proof. reflexivity. Qed.
+
+  Definition is_get (o : op) : Prop := match o with Get _ => True | _ => False end.
+
+  Lemma gets_pure h : forall st, Forall is_get h -> run st h = st.
+  Proof.
+    induction h as [|o h IH]; intros st F; [reflexivity|].
+    inversion F as [|? ? G F']; subst. destruct o; try contradiction. simpl. now apply IH.
+  Qed.
+
   Lemma put_refused st a c :
     contains colon (c_user c) = true -> step st (Put a c) = (st, RErrBadCred).
   Proof. intro H. simpl. now rewrite H. Qed.
